@@ -61,6 +61,29 @@ func main() {
 			fmt.Println(string(b))
 		}
 		os.Exit(0)
+	case "names":
+		// (re)generate claimed/names.json, the reference names used by rename inference
+		_, all, err := loadContracts(*repo, "github.com/arnodel/golua")
+		if err != nil {
+			fmt.Fprintln(os.Stderr, err)
+			os.Exit(2)
+		}
+		eng, err := loadEngine(*repo, *verif, []string{"github.com/arnodel/golua/..."}, "verif", fragOverlay(*repo, all, nil))
+		if err != nil {
+			fmt.Fprintln(os.Stderr, err)
+			os.Exit(2)
+		}
+		idx := eng.buildNameIndex()
+		if err := writeNameIndex(*verif, idx); err != nil {
+			fmt.Fprintln(os.Stderr, err)
+			os.Exit(2)
+		}
+		n := 0
+		for _, p := range idx {
+			n += len(p.Funcs)
+		}
+		fmt.Printf("names: %d packages, %d functions\n", len(idx), n)
+		os.Exit(0)
 	case "replay":
 		if fs.NArg() < 1 {
 			usage()
